@@ -139,6 +139,18 @@ func (e *Eval) Prepare(flags ...[]byte) error {
 	}
 
 	//
+	// The operands of our instructions are sixteen bits wide, so that
+	// is the limit for jump-targets, and for references to constants.
+	//
+	// A program which is larger than that cannot be represented, rather
+	// than silently truncating offsets we refuse it.
+	//
+	err = e.checkLimits()
+	if err != nil {
+		return err
+	}
+
+	//
 	// If we've got the optimizer enabled then set the environment
 	// variable, so that the virtual machine knows it should
 	// run a series of optimizations.
@@ -165,6 +177,25 @@ func (e *Eval) Prepare(flags ...[]byte) error {
 	//
 	// All done; no errors.
 	//
+	return nil
+}
+
+// checkLimits ensures that the compiled program, each user-defined function,
+// and the constant-pool can be addressed with 16-bit operands.
+func (e *Eval) checkLimits() error {
+	const max = 0xFFFF
+
+	if len(e.instructions) > max {
+		return fmt.Errorf("the program is too large: %d bytes of bytecode, the limit is %d", len(e.instructions), max)
+	}
+	for name, fn := range e.functions {
+		if len(fn.Bytecode) > max {
+			return fmt.Errorf("the function %s is too large: %d bytes of bytecode, the limit is %d", name, len(fn.Bytecode), max)
+		}
+	}
+	if len(e.constants) > max+1 {
+		return fmt.Errorf("the program has too many constants: %d, the limit is %d", len(e.constants), max+1)
+	}
 	return nil
 }
 
